@@ -196,7 +196,7 @@ def c06(pid, tier, seed, selftest=False):
     rep.sample(one[-1])
     run_oneshot(rep, pid, "terms", "noise", one, tpl, seed, "Trace_Noise", nproc=8, only_prefixes=["C06_", "C19_"])
     n, ex = st.drift(runs)
-    rep.extra["model_drift_runs"] = n
+    rep.extra["model_drift"] = "none" if n == 0 else "%d runs differ from the Layer-B prediction" % n
     return rep.finish()
 
 
